@@ -18,6 +18,10 @@ def run(ctx):
                 "constant miss.")
     ecfg.check_siblings(ctx, F)
     ecfg.check_noapplycache(ctx, F)
+    ctx.explain("E-CFG.slabtype: every arcslab handle type in the pointer manager names the slab's own data type "
+                "(the handle locates the slab header through it when a slot is freed).")
+    n = ecfg.check_slab_data_type(ctx, F)
+    ctx.floor("E-CFG.slabtype", "arcslab handle / slab types in the pointer manager", n, 50)
     ecfg.run_config(ctx, "ws", deep=True)
     for c in (ALL if ctx.tier == "thorough" else QUICK):
         ecfg.run_config(ctx, c, deep=("nocache" not in c))
